@@ -21,7 +21,7 @@ C01  Progeny inherit only their designated parents' haplotypes (Mendelian fideli
 """
 import ast
 
-from sa.astutil import dump, where, kwargs_of, walk_no_nested, field_of, is_const, same_expr
+from sa.astutil import dump, where, kwargs_of, walk_no_nested, field_of, is_const, same_expr, is_guard, is_diagnostic
 from sa.model import AnalysisError, body_nodoc
 
 UTIL = "pybrops.breed.prot.mate.util"
@@ -687,7 +687,11 @@ class ProtoEval:
                 if isinstance(fn, ast.Attribute) and fn.attr == "group_taxa" and isinstance(fn.value, ast.Name):
                     self.facts.append(("group_taxa", fn.value.id))
                     return
+            if is_diagnostic(st):
+                return
             raise PUnrec("statement %s not modelled" % dump(st)[:50])
+        if is_guard(st):
+            return      # an input check that only raises: no effect on the progeny of a call that returns
         if isinstance(st, ast.If):
             # count normalisation / miscout checks only
             t = dump(st.test)
